@@ -21,7 +21,7 @@ RULE = ("Builder geometry (address width 1-8, data width 1-64, granularity a div
         "Distinct = canonical JSON.")
 BUDGET = {"quick": (16, 500), "thorough": (16, 15000)}
 ESSENTIAL = ["layout_ok", "layout_refused_overlap", "layout_refused_overflow", "layout_refused_name",
-             "explicit_offset", "granularity!=8", "scope_cluster", "scope_index", "failed_op_in_scope_caught_outside",
+             "explicit_offset", "explicit_offset_near_end", "granularity!=8", "scope_cluster", "scope_index", "failed_op_in_scope_caught_outside",
              "failed_op_in_scope_caught_inside", "natural_alignment_gap", "frozen_add_refused", "bad_geometry_refused"]
 ASSUMPTIONS = [
     "a zero-width register occupies one address (a memory-map range is never empty)",
@@ -36,6 +36,7 @@ def _add():
                      st.sampled_from([0, 1, 1, 2, 2, 3, 4, 5, "dw-1", "dw+1", "2dw+1"]),
                      gens.weighted((5, st.none()), (1, st.integers(0, 40)),
                                              (3, st.integers(0, 12).map(lambda k: ["mult", k])),
+                                             (2, st.integers(1, 9).map(lambda d: ["end", d])),
                                              (1, st.sampled_from([-1, "x", 1.5])))).map(list)
 
 
@@ -112,7 +113,10 @@ def check(spec, stats):
                 _, name, wspec, off = op
                 w = width_of(wspec)
                 if isinstance(off, list):
-                    off = off[1] * ratio
+                    # ["mult", k]: bus address k; ["end", d]: d addresses before the end of the address space
+                    off = off[1] * ratio if off[0] == "mult" else max(0, (1 << aw) - off[1]) * ratio
+                    if op[3][0] == "end":
+                        stats.label("explicit_offset_near_end")
                 reg = csr.Register(csr.Field(action.RW, w), access="rw")
                 bad = (not isinstance(name, str) or not name
                        or (off is not None and (not isinstance(off, int) or off < 0 or off % ratio != 0))
